@@ -275,3 +275,29 @@ def make_clock_multiplier(output_clock_rate: int, input_clock_rate: int) -> Gene
             pos -= 1
             rv += 1
         yield rv
+
+
+def advance_on_tick_grid(current_time: float, ticks_per_beat: int, grid: tuple) -> tuple:
+    """
+    Advance a clock by one tick, keeping it on a tick grid so that floating-point error does not
+    accumulate from one tick to the next: the time is always `origin + n / ticks_per_beat` for a whole number n.
+
+    The grid starts at time 0. When the resolution changes, or the clock has been set to a time that is not
+    on the grid, the grid is re-anchored at the current time, so that a tick always lasts exactly
+    1 / ticks_per_beat beats (and the position reached so far is kept).
+
+    Args:
+        current_time: The clock's time, in beats.
+        ticks_per_beat: The resolution in force.
+        grid: The (origin, ticks_per_beat) pair returned by the previous call, or (0.0, None).
+
+    Returns:
+        A tuple (new time, grid).
+    """
+    origin, grid_ticks_per_beat = grid
+    if grid_ticks_per_beat is None:
+        grid_ticks_per_beat = ticks_per_beat
+    position = (current_time - origin) * ticks_per_beat
+    if grid_ticks_per_beat != ticks_per_beat or abs(position - round(position)) > 1e-6:
+        origin, position = current_time, 0
+    return origin + (round(position) + 1) / ticks_per_beat, (origin, ticks_per_beat)
